@@ -31,7 +31,7 @@ func (c01) Assumptions() []string {
 
 func c01Corpus(env run.Env) corpus {
 	if env.Thorough {
-		return newCorpus("C01", gen.Domain{}, 60, 400000)
+		return newCorpus("C01", gen.Domain{}, 240, 12000000)
 	}
 	return newCorpus("C01", gen.Domain{}, 6, 20000)
 }
